@@ -120,13 +120,19 @@ fn shape_choice() -> impl Strategy<Value = Vec<usize>> {
     ]
 }
 
+/// Monomorphic entries of any magnitude: genome-scale counts of invariant sites dwarf the
+/// polymorphic part (a statistic that is `total - corners` loses it to cancellation).
+fn mono_value() -> impl Strategy<Value = f64> {
+    prop_oneof![3 => 0.0f64..500.0, 1 => Just(0.0), 1 => 1e5f64..1e7, 2 => 1e9f64..4e9, 1 => 1e11f64..1e13, 1 => Just(1e17), 1 => 1e15f64..1e18]
+}
+
 fn strategy() -> impl Strategy<Value = Case> {
     (
         shape_choice(),
         prop::collection::vec(prop_oneof![4 => 0.0f64..100.0, 2 => (0u32..50).prop_map(|v| v as f64), 1 => Just(0.0)], 360),
         -8i32..=8,
         0.001f64..1000.0,
-        (0.0f64..500.0, 0.0f64..500.0),
+        (mono_value(), mono_value()),
     )
         .prop_map(|(shape, mut values, scale_exp, scale_arbitrary, mono)| {
             let n = elements(&shape);
